@@ -17,6 +17,7 @@ import Rare.Proofs.C15Replace
 import Rare.Proofs.C15CatchUp
 import Rare.Proofs.C15PollFull
 import Rare.Model.C15Wiring
+import Rare.Model.C15Open
 import Rare.Model.C15Switch
 import Rare.Gen.C15
 /-!
@@ -1475,6 +1476,79 @@ example : ∃ s : PSt Nat, PReachO ⟨2, true⟩ (pinit (some [1, 2, 3]) false) 
     (.base (.statDiff _ 1 rfl rfl rfl (by decide)))) (.base (.reopen _ 2 rfl)))
     (.base (.readSome _ ⟨1, 0, 0⟩ 0 2 rfl (by decide) rfl (by decide) (by decide)))
   exact ⟨_, hr, rfl, rfl, rfl, rfl, rfl⟩
+
+/-! ## the prologue of the per-file goroutine of `TailFilesToChan` (regular file, pipe, missing file / directory)
+
+`Rare.Model.C15Open`: `followreader.New`, the optional `Drain`, the error bookkeeping.  The shape of the code (one
+`incErrors` + `return` after a failed `New`, one `incErrors` WITHOUT `return` after a failed `Drain`, then
+`startFileReading` and the batching loop) is `Gen.C15.tailFilesSkeleton` / `tailFilesConds` in
+`wiring_matches_source`; the correspondence op `prologue` runs the real `TailFilesToChan` on all four kinds of path. -/
+
+section prologue
+open Rare.C15.Open
+
+/-- **prologue_regular_is_initial_state.**  On a regular file nothing fails, and what the prologue leaves is
+    exactly the initial state of the two transition systems every theorem above starts from: the file open at
+    offset 0, or (`--tail`) at its end; the poller's `readBytes` is that offset. -/
+theorem prologue_regular_is_initial_state (w : Wiring.Follow) (c : List β) :
+    prologue w .regular c.length = ⟨0, true, true, start0 (some c) w.tail⟩ ∧
+    (ninit (some c) w.tail).f = some ⟨0, (prologue w .regular c.length).offset, (prologue w .regular c.length).offset⟩ ∧
+    (pinit (some c) w.tail).f = some ⟨0, (prologue w .regular c.length).offset, (prologue w .regular c.length).offset⟩ ∧
+    (pinit (some c) w.tail).readBytes = (prologue w .regular c.length).offset := by
+  rcases w with ⟨k, r, t⟩
+  cases k <;> cases r <;> cases t <;> exact ⟨rfl, rfl, rfl, rfl⟩
+
+/-- **prologue_missing_file.**  Nothing at the path (the directory exists): with re-open the goroutine follows
+    without a file (`ninit none` / `pinit none`), no error, `--tail` has nothing to skip; without re-open it
+    counts one error and returns. -/
+theorem prologue_missing_file (w : Wiring.Follow) (size : Nat) :
+    prologue w .absent size = if w.reopen then ⟨0, true, false, 0⟩ else ⟨1, false, false, 0⟩ := by
+  rcases w with ⟨k, r, t⟩
+  cases k <;> cases r <;> cases t <;> rfl
+
+/-- **prologue_started_iff.**  The goroutine gives up (one error, the file is never listed as being read, nothing
+    is delivered) exactly when the file cannot be opened and re-open is off, or – notify reader only, also WITH
+    re-open – there is no directory to watch.  The poller with re-open waits even for the directory. -/
+theorem prologue_started_iff (w : Wiring.Follow) (st : FileState) (size : Nat) :
+    ((prologue w st size).started = false ↔
+      (opens st = false ∧ w.reopen = false) ∨ (w.kind = .notify ∧ st = .nodir)) ∧
+    ((prologue w st size).started = false → (prologue w st size).errors = 1 ∧ (prologue w st size).hasFile = false) ∧
+    (newOn w.kind w.reopen st = .err ↔ Wiring.newFails (opens st) w.reopen = true ∨ (w.kind = .notify ∧ st = .nodir)) := by
+  rcases w with ⟨k, r, t⟩
+  cases st <;> cases k <;> cases r <;> cases t <;>
+    simp [prologue, newOn, opens, watchable, seekable, drain, Wiring.newFails]
+
+/-- **prologue_errors.**  At most one error per file; a started follower has one exactly when `--tail` met a
+    file it cannot seek in. -/
+theorem prologue_errors (w : Wiring.Follow) (st : FileState) (size : Nat) :
+    (prologue w st size).errors ≤ 1 ∧
+    ((prologue w st size).started = true →
+      ((prologue w st size).errors = 1 ↔ w.tail = true ∧ st = .fifo)) := by
+  rcases w with ⟨k, r, t⟩
+  cases st <;> cases k <;> cases r <;> cases t <;>
+    simp [prologue, newOn, opens, watchable, seekable, drain]
+
+/-- **tail_on_pipe_counts_error_and_reads_all** (behaviour of the code, recorded): `--tail` on a named pipe –
+    `Drain` fails (ESPIPE), one error is counted, there is NO `return`: the pipe is followed from its beginning,
+    what was already in it is delivered too.  On a regular file `--tail` skips exactly the content. -/
+theorem tail_on_pipe_counts_error_and_reads_all (w : Wiring.Follow) (content extra : List β) :
+    (w.tail = true → (prologue w .fifo content.length).errors = 1) ∧
+    (prologue w .fifo content.length).started = true ∧
+    delivers w .fifo content extra = content ++ extra ∧
+    delivers w .regular content extra = (if w.tail then extra else content ++ extra) ∧
+    (prologue w .regular content.length).errors = 0 := by
+  rcases w with ⟨k, r, t⟩
+  cases k <;> cases r <;> cases t <;>
+    simp [delivers, prologue, newOn, opens, watchable, seekable, drain]
+
+example : prologue ⟨.notify, true, true⟩ .nodir 0 = ⟨1, false, false, 0⟩ ∧
+    prologue ⟨.poll, true, true⟩ .nodir 0 = ⟨0, true, false, 0⟩ ∧
+    prologue ⟨.poll, false, true⟩ .fifo 7 = ⟨1, true, true, 0⟩ ∧
+    prologue ⟨.poll, false, true⟩ .regular 7 = ⟨0, true, true, 7⟩ ∧
+    delivers ⟨.notify, false, true⟩ .fifo [1, 2] [3] = [1, 2, 3] ∧
+    delivers ⟨.notify, false, true⟩ .regular [1, 2] [3] = [3] := by decide
+
+end prologue
 
 /-! ## in-place truncation (copytruncate rotation) – outside the property, behaviour recorded -/
 
